@@ -1,38 +1,67 @@
 #!/usr/bin/env python3
-import json, os, shutil, subprocess, sys, tempfile
+# Must-fail self-test: every mutant of selftest/mutants.json is applied to a scratch
+# copy of /repo (outside /repo and /verif, removed afterwards); the property's check
+# must exit 1 and report the expected obligation.  Mutants run SELFTEST_JOBS at a
+# time (default 4), each worker in its own scratch copy.
+import json, os, shutil, subprocess, sys, tempfile, threading, queue
 V = os.path.dirname(os.path.dirname(os.path.abspath(__file__)))
 muts = json.load(open(os.path.join(V, "selftest", "mutants.json")))
 want = set(sys.argv[1:])
 env = dict(os.environ, GOFLAGS="-mod=mod", GOPROXY="off", GOTOOLCHAIN="auto")
 env.pop("GOSUMDB", None)
+todo = [m for m in muts if not want or m["property"] in want or m["id"] in want]
+jobs = max(1, min(int(os.environ.get("SELFTEST_JOBS", "4")), len(todo) or 1))
 scratch = tempfile.mkdtemp(prefix="vcgen-selftest-")
+q = queue.Queue()
+for m in todo:
+    q.put(m)
 bad = 0
-try:
-    repo = os.path.join(scratch, "repo")
+lock = threading.Lock()
+
+
+def worker(k):
+    global bad
+    repo = os.path.join(scratch, f"repo{k}")
+    work = os.path.join(scratch, f"verif{k}")
     subprocess.check_call(["rsync", "-a", "--exclude", ".git", "--exclude", "testdata", "/repo/", repo + "/"])
-    for m in muts:
-        if want and m["property"] not in want and m["id"] not in want:
-            continue
+    os.makedirs(work, exist_ok=True)
+    while True:
+        try:
+            m = q.get_nowait()
+        except queue.Empty:
+            return
         path = os.path.join(repo, m["file"])
         src = open(path).read()
         if src.count(m["old"]) < 1:
-            print(f"SELFTEST {m['id']}: pattern not found in {m['file']} (corpus out of date)")
-            bad += 1
+            with lock:
+                print(f"SELFTEST {m['id']}: pattern not found in {m['file']} (corpus out of date)", flush=True)
+                bad += 1
             continue
         open(path, "w").write(src.replace(m["old"], m["new"], 1))
-        work = os.path.join(scratch, "verif")
-        os.makedirs(work, exist_ok=True)
         try:
             p = subprocess.run([os.path.join(V, "bin", "vcgen"), "check", "-repo", repo, "-verif", V, "-work", work, "-evidence=false",
-                                "-property", m["property"]], capture_output=True, text=True, env=env, timeout=1800)
+                                "-property", m["property"]], capture_output=True, text=True, env=env, timeout=2400)
             out = p.stdout
             viol = [l for l in out.splitlines() if l.startswith("VIOLATION")]
             ok = p.returncode == 1 and viol and (not m["expect"] or any(m["expect"] in l for l in viol))
-            print(f"SELFTEST {m['id']}: {'caught' if ok else 'MISSED'} exit={p.returncode} {viol[0][:160] if viol else out[-200:]}")
-            if not ok:
+            with lock:
+                print(f"SELFTEST {m['id']}: {'caught' if ok else 'MISSED'} exit={p.returncode} {viol[0][:160] if viol else out[-200:]}", flush=True)
+                if not ok:
+                    bad += 1
+        except subprocess.TimeoutExpired:
+            with lock:
+                print(f"SELFTEST {m['id']}: MISSED (check timed out)", flush=True)
                 bad += 1
         finally:
             open(path, "w").write(src)
+
+
+try:
+    ts = [threading.Thread(target=worker, args=(k,)) for k in range(jobs)]
+    for t in ts:
+        t.start()
+    for t in ts:
+        t.join()
 finally:
     shutil.rmtree(scratch, ignore_errors=True)
 print(f"selftest: {bad} mutants not caught as expected")
